@@ -379,6 +379,27 @@ Section VolsLoad.
       { intros j Hj. rewrite Hf1. apply H. lia. }
       exists st2. rewrite E2, <- app_assoc. reflexivity.
   Qed.
+
+  (* ... and when each of the remaining paths holds nothing or a file that is not a volume of this set (it does not
+     parse, or carries another set hash or number): every such slot is empty and the shard size is unchanged *)
+  Lemma load_vols_skipped : forall m i size acc st, io_sched st = [] ->
+    (forall j, (i < j <= i + m)%nat ->
+       vol_skipped md5 sethash (N.of_nat j) (read_res (io_fs st) (volume_path ix (N.of_nat j)))) ->
+    exists st1, load_vols md5 ix sethash i m size acc st = (Ok (acc ++ repeat None m, size), st1).
+  Proof.
+    clear md5_len Hsh Hes Hsz Hcnt.
+    induction m as [|m IH]; intros i size acc st Hs H.
+    - cbn [load_vols repeat]. exists st. rewrite app_nil_r. reflexivity.
+    - destruct (io_read_nosched (volume_path ix (N.of_nat (S i))) st Hs) as (st1 & ER & Hs1 & Hf1).
+      destruct (IH (S i) size (acc ++ [None]) st1 Hs1) as (st2 & E2).
+      { intros j Hj. rewrite Hf1. apply H. lia. }
+      exists st2. cbn [repeat]. replace (acc ++ None :: repeat None m) with ((acc ++ [None]) ++ repeat None m)
+        by (rewrite <- app_assoc; reflexivity).
+      rewrite <- E2.
+      destruct (H (S i) ltac:(lia)) as [E|(b & E & Hnm)]; rewrite E in ER.
+      + cbn [load_vols]. rewrite ER. reflexivity.
+      + exact (load_vols_not_member_step md5 ix sethash i m size acc st b st1 ER Hnm).
+  Qed.
 End VolsLoad.
 
 (** * what Create writes *)
@@ -503,7 +524,7 @@ Section Created.
     (forall j, (j < np)%nat -> fs_lookup fs2 (volume_path ix (N.of_nat (S j))) =
                                Some (write_volume md5 sethash (N.of_nat (S j)) entries (nth j P []))) ->
     (forall k, (np < k <= N.to_nat (N.min (256 - N.of_nat (length datas)) 99))%nat ->
-               read_res fs2 (volume_path ix (N.of_nat k)) = Err ENotExist) ->
+               vol_skipped md5 sethash (N.of_nat k) (read_res fs2 (volume_path ix (N.of_nat k)))) ->
     Forall (fun t : bytes * (bytes * bool) =>
               if snd (snd t) then fs_lookup fs2 (join2 (dir ix) (fst t)) = Some (fst (snd t))
               else read_res fs2 (join2 (dir ix) (fst t)) = Err ENotExist) (combine names (combine datas keep)) ->
@@ -550,7 +571,7 @@ Section Created.
     { rewrite Lvs. apply N.lt_trans with 257; [unfold np; lia|reflexivity]. }
     { intros j Hj. rewrite Lvs in Hj. rewrite Hfb, Hfa. cbn [Nat.add]. rewrite Evs, nth_firstn_lt by exact Hj.
       apply C2. exact Hj. }
-    destruct (load_vols_absent md5 ix sethash (maxv - np) (0 + length vs) (match vs with [] => 0%nat | _ => size end)
+    destruct (load_vols_skipped md5 ix sethash (maxv - np) (0 + length vs) (match vs with [] => 0%nat | _ => size end)
                 ([] ++ map Some vs) sc Hsc) as (sd & ELV2).
     { intros j Hj. rewrite Hfc, Hfb, Hfa. apply C3. rewrite Lvs in Hj. lia. }
     rewrite ELV2 in ELV1. rewrite Lvs in ELV1. replace (np + (maxv - np))%nat with maxv in ELV1 by lia.
@@ -560,9 +581,9 @@ Section Created.
     (* assemble *)
     pose proof (p1_load_ok md5 ix (io_init fs2 []) _ sa v (erase keep datas) sb
                   (map Some vs ++ repeat None (maxv - np)) size sd He ER EV) as PL.
-    rewrite F2, F3, F1, F5 in PL.
+    unfold nsaved in PL. rewrite F2, F3, F1 in PL.
     assert (Efs : filter saved entries = entries) by apply filter_saved_mk.
-    rewrite Efs in PL.
+    rewrite Efs, Hel in PL.
     specialize (PL eq_refl EL Hds).
     assert (EC : (256 <=? N.of_nat (length datas)) = false) by (apply N.leb_gt; lia).
     specialize (PL EC ELV1).
@@ -692,6 +713,7 @@ Proof.
   cbn [io_init io_fs] in Hf1, HF.
   destruct (par1_outputs md5 parPath nv (map base files) datas) as [outs|e|q] eqn:EO; try discriminate H.
   destruct (par1_outputs_ok _ _ _ _ _ _ Ee EO) as (Ge & Hsz & ->).
+  lazymatch type of H with (if ?c then _ else _) = _ => destruct c; [discriminate H|] end.
   destruct (io_writes1_nosched (create_outs md5 parPath nv (map base files) datas) st1 Hs1) as (st2 & EW & Hf2 & _).
   rewrite EW in H. injection H as <-.
   exists datas. split; [reflexivity|]. split; [discriminate|]. split; [apply has_dup_false; exact Ed|].
@@ -903,6 +925,61 @@ Proof.
   rewrite (rs_verify_consistent (length D) np D size HDne eq_refl HD Hsz). reflexivity.
 Qed.
 
+(* the set hash of the set Create makes from the input files, in terms of the file map before Create *)
+Definition input_set_hash (md5 : bytes -> bytes) (fs : list (list N * bytes)) (files : list (list N)) : bytes :=
+  md5 (flat_map (fun f => match fs_lookup fs f with Some d => md5 d | None => [] end) files).
+
+Lemma input_set_hash_created md5 fs : forall files datas, Forall2 (fun f d => fs_lookup fs f = Some d) files datas ->
+  set_hash md5 (mk_entries md5 (map base files) datas) = input_set_hash md5 fs files.
+Proof.
+  intros files datas F. unfold set_hash, input_set_hash, mk_entries. f_equal.
+  induction F as [|f d files datas Hl F IH]; [reflexivity|].
+  cbn [map combine flat_map]. rewrite Hl. cbn [mk_entry e_hash snd]. rewrite IH. reflexivity.
+Qed.
+
+(* a path that is no directory and holds, if anything, a file that is not a volume of the set: the loader skips it *)
+Lemma stale_skipped md5 fs p sh k : is_dir fs p = false ->
+  (forall b, fs_lookup fs p = Some b -> not_member md5 sh k b) -> vol_skipped md5 sh k (read_res fs p).
+Proof.
+  intros Hd Hb. unfold read_res, vol_skipped. destruct (fs_lookup fs p) as [b|].
+  - right. exists b. split; [reflexivity|apply Hb; reflexivity].
+  - left. rewrite Hd. reflexivity.
+Qed.
+
+(* the old form of the premise (nothing there) is a special case *)
+Lemma absent_skipped md5 fs p sh k : fs_lookup fs p = None -> is_dir fs p = false -> vol_skipped md5 sh k (read_res fs p).
+Proof. intros H1 H2. apply stale_skipped; [exact H2|]. intros b Hb. rewrite H1 in Hb. discriminate Hb. Qed.
+
+(* when Create returns success no input is the index or one of the volumes written: the check of Encoder.Write passed *)
+Lemma par1_create_ok_inputs_not_outputs md5 parPath files nvol st st' :
+  par1_create md5 parPath files nvol st = (Ok tt, st') ->
+  let nv := if (nvol <=? 0)%Z then 3%nat else Z.to_nat nvol in
+  Forall (fun f => f <> parPath /\ forall k, (1 <= k <= nv)%nat -> f <> volume_path parPath (N.of_nat k)) files.
+Proof.
+  intros H nv. unfold par1_create in H.
+  destruct (str_eqb (ext parPath) EXT_PAR) eqn:Ee; cbn [negb] in H; [|discriminate H].
+  destruct files as [|f0 files']; [discriminate H|]. set (files := f0 :: files') in *.
+  fold nv in H.
+  destruct (has_dup (map base files)); [discriminate H|].
+  destruct (Par1.io_reads files st) as [[datas|e|q] st1]; try discriminate H.
+  destruct (par1_outputs md5 parPath nv (map base files) datas) as [outs|e|q] eqn:EO; try discriminate H.
+  destruct (par1_outputs_ok _ _ _ _ _ _ Ee EO) as (_ & _ & ->).
+  lazymatch type of H with (if ?c then _ else _) = _ => destruct c eqn:ECK; [discriminate H|] end.
+  clear H. apply Forall_forall. intros f Hf.
+  assert (Hkey : forall p, In p (map fst (create_outs md5 parPath nv (map base files) datas)) -> f <> p).
+  { intros p Hp E. subst p. apply in_map_iff in Hp. destruct Hp as (o & Ho & Hin).
+    destruct (str_eqb (clean f) (clean (fst o))) eqn:E1.
+    - assert (T : existsb (fun f => existsb (fun o : list N * bytes => str_eqb (clean f) (clean (fst o)))
+                     (create_outs md5 parPath nv (map base files) datas)) files = true).
+      { apply existsb_exists. exists f. split; [exact Hf|]. apply existsb_exists. exists o. split; [exact Hin|exact E1]. }
+      rewrite T in ECK. discriminate ECK.
+    - rewrite Ho, str_eqb_refl in E1. discriminate E1. }
+  split.
+  - apply Hkey. apply (proj2 (in_create_outs_keys md5 parPath nv _ _ Ee _)). left. reflexivity.
+  - intros k Hk. apply Hkey. apply (proj2 (in_create_outs_keys md5 parPath nv _ _ Ee _)). right. exists (k - 1)%nat. split; [lia|].
+    replace (S (k - 1)) with k by lia. reflexivity.
+Qed.
+
 Theorem par1_create_then_verify_clean : forall md5, (forall x, length (md5 x) = 16%nat) ->
   forall parPath files nvol fs st' all,
   par1_create md5 parPath files nvol (io_init fs []) = (Ok tt, st') ->
@@ -910,13 +987,15 @@ Theorem par1_create_then_verify_clean : forall md5, (forall x, length (md5 x) = 
   Forall (fun f => input_name_ok (base f)) files ->
   Forall (fun f => join2 (dir parPath) (base f) = f) files ->
   (forall f d, In f files -> fs_lookup fs f = Some d -> N.of_nat (length d) < 2^64) ->
-  Forall (fun f => f <> parPath /\ forall k, (1 <= k <= nv)%nat -> f <> volume_path parPath (N.of_nat k)) files ->
   (forall k, (nv < k <= Nat.min (256 - length files) 99)%nat ->
-     fs_lookup fs (volume_path parPath (N.of_nat k)) = None /\ is_dir fs (volume_path parPath (N.of_nat k)) = false) ->
+     is_dir fs (volume_path parPath (N.of_nat k)) = false /\
+     forall b, fs_lookup fs (volume_path parPath (N.of_nat k)) = Some b ->
+               not_member md5 (input_set_hash md5 fs files) (N.of_nat k) b) ->
   exists c st2, par1_verify md5 parPath all (io_init (io_fs st') []) = (Ok (c, all), st2) /\
     fc_unusable c = 0%nat /\ fc_punusable c = 0%nat /\ fc_usable c = length files /\ fc_pusable c = Nat.min nv 99.
 Proof.
-  intros md5 md5_len parPath files nvol fs st' all HC nv Hnames Hjoin Hlens Hdisj Hstale.
+  intros md5 md5_len parPath files nvol fs st' all HC nv Hnames Hjoin Hlens Hstale.
+  pose proof (par1_create_ok_inputs_not_outputs md5 parPath files nvol _ _ HC) as Hdisj. cbv zeta in Hdisj. fold nv in Hdisj.
   destruct (create_setup md5 parPath files nvol fs st' HC Hnames Hlens)
     as (datas & HF & He & Hlen & Hne & Hcap & Hnv & Hsz & Hnok & Hdl & Hndf & HL & Hfs).
   fold nv in Hcap, Hnv, Hfs.
@@ -927,7 +1006,8 @@ Proof.
   - rewrite Hfs. apply created_index. exact He.
   - intros j Hj. rewrite Hfs. apply created_volume; [exact He|lia].
   - intros k Hk. rewrite Hfs, created_volume_absent by (try exact He; lia).
-    destruct (Hstale k ltac:(lia)) as [H1 H2]. unfold read_res. rewrite H1, H2. reflexivity.
+    destruct (Hstale k ltac:(lia)) as [H1 H2]. rewrite (input_set_hash_created md5 fs files datas HF).
+    apply stale_skipped; assumption.
   - apply (c4_of_forall2 parPath (io_fs st') (fun _ => true)); [|exact Hjoin].
     apply (Forall2_impl_in _ _ _ _ HF). intros f d Hin Hl. rewrite Hfs.
     rewrite Forall_forall in Hdisj. destruct (Hdisj f Hin) as [D1 D2].
@@ -1459,7 +1539,7 @@ Proof.
   - unfold fs2. rewrite remove_lookup_other by exact Hlost_ix. rewrite Hfs. apply created_index. exact He.
   - intros j Hj. unfold fs2. rewrite remove_lookup_other by (apply Hlost_vol; lia).
     rewrite Hfs. apply created_volume; [exact He|lia].
-  - intros k Hk.
+  - intros k Hk. left.
     assert (R : read_res (io_fs st') (volume_path parPath (N.of_nat k)) = Err ENotExist).
     { rewrite Hfs, created_volume_absent by (try exact He; lia).
       destruct (Hstale k ltac:(lia)) as [H1 H2]. unfold read_res. rewrite H1, H2. reflexivity. }
@@ -1638,7 +1718,8 @@ Proof.
   eexists. split; [vm_compute; reflexivity|].
   destruct rt_example_premises as (P1 & P2 & P3 & P4 & P5).
   eapply (par1_create_then_verify_clean toy_hash toy_hash_len ex_ix ex_files 2%Z ex_fs0 _ true);
-    [vm_compute; reflexivity|exact P1|exact P2|intros f d Hin Hl; exact (proj1 (P3 f d Hin Hl))|exact P4|exact P5].
+    [vm_compute; reflexivity|exact P1|exact P2|intros f d Hin Hl; exact (proj1 (P3 f d Hin Hl))|].
+  intros k Hk. destruct (P5 k Hk) as [H1 H2]. split; [exact H2|]. intros b Hb. rewrite H1 in Hb. discriminate Hb.
 Qed.
 
 (* the same by computation, and without the parity check *)
@@ -1707,19 +1788,73 @@ Example par1_create_one_empty_ok :
   fst (par1_repair toy_hash ex_ix true (io_init (fs_remove [[120]; [121]] fs') [])) = (Ok tt, [[120]; [121]]).
 Proof. split; vm_compute; reflexivity. Qed.
 
-(* 3. a stale volume beyond nv IS loaded: an old "a.p03" of another set (it parses as volume 3, but carries the
-   set hash of the other set) makes Verify fail.  [ex_stale] is the "a.p03" of a three-volume set over one other file. *)
+(* 3. a stale volume beyond nv of ANOTHER set is unusable, not fatal: an old "a.p03" of another set (it parses as
+   volume 3, but carries the set hash of the other set) is skipped and Verify is clean with the two volumes of the
+   set.  (Before the fix of the loader this state made Verify fail with Err EMalformed.)
+   [ex_stale] is the "a.p03" of a three-volume set over one other file. *)
 Definition ex_stale : bytes :=
   let fsA := io_fs (snd (par1_create toy_hash ex_ix [[120]] 3%Z (io_init [([120], [9; 9])] []))) in
   match fs_lookup fsA (volume_path ex_ix 3) with Some b => b | None => [] end.
 
-Example par1_stale_volume_refuted :
+Example par1_stale_foreign_volume_ignored :
   let fs0 := ex_fs0 ++ [(volume_path ex_ix 3, ex_stale)] in
   let fs' := io_fs (snd (par1_create toy_hash ex_ix ex_files 2%Z (io_init fs0 []))) in
-  (exists v, read_volume toy_hash ex_stale = Ok v /\ v_number v = 3) /\
+  (exists v, read_volume toy_hash ex_stale = Ok v /\ v_number v = 3 /\
+             bytes_eqb (v_sethash_stored v) (input_set_hash toy_hash fs0 ex_files) = false) /\
   fst (par1_create toy_hash ex_ix ex_files 2%Z (io_init fs0 [])) = Ok tt /\
-  fst (par1_verify toy_hash ex_ix true (io_init fs' [])) = Err EMalformed.
-Proof. split; [eexists; split; vm_compute; reflexivity|split; vm_compute; reflexivity]. Qed.
+  fs_lookup fs' (volume_path ex_ix 3) = Some ex_stale /\
+  fst (par1_verify toy_hash ex_ix true (io_init fs' [])) =
+    Ok ({| fc_usable := 2; fc_unusable := 0; fc_pusable := 2; fc_punusable := 0 |}, true).
+Proof. split; [eexists; repeat split; vm_compute; reflexivity|repeat split; vm_compute; reflexivity]. Qed.
+
+(* ... and through RT1: the premise on the paths beyond nv accepts that file *)
+Example par1_rt1_example_stale :
+  let fs0 := ex_fs0 ++ [(volume_path ex_ix 3, ex_stale)] in
+  exists st', par1_create toy_hash ex_ix ex_files 2%Z (io_init fs0 []) = (Ok tt, st') /\
+  exists c st2, par1_verify toy_hash ex_ix true (io_init (io_fs st') []) = (Ok (c, true), st2) /\
+    fc_unusable c = 0%nat /\ fc_punusable c = 0%nat /\ fc_usable c = 2%nat /\ fc_pusable c = 2%nat.
+Proof.
+  intros fs0. eexists. split; [vm_compute; reflexivity|].
+  destruct rt_example_premises as (P1 & P2 & P3 & P4 & P5).
+  eapply (par1_create_then_verify_clean toy_hash toy_hash_len ex_ix ex_files 2%Z fs0 _ true);
+    [vm_compute; reflexivity|exact P1|exact P2| |].
+  - intros f d [<-|[<-|[]]] H; vm_compute in H; injection H as <-; vm_compute; reflexivity.
+  - intros k Hk.
+    assert (Hne : forall c n, [c] <> volume_path ex_ix n).
+    { intros c n E. apply (f_equal (@length N)) in E. pose proof (volume_path_len ex_ix n). cbn [length] in E. lia. }
+    split.
+    + unfold is_dir, fs0. cbn [ex_fs0 app existsb fst].
+      rewrite !starts_with_short by (rewrite app_length; pose proof (volume_path_len ex_ix (N.of_nat k)); cbn [length]; lia).
+      cbn [orb]. rewrite orb_false_r. apply not_below_volume. apply sl_volume_path.
+    + intros b Hb. unfold fs0 in Hb. cbn [ex_fs0 app fs_lookup] in Hb. rewrite !str_eqb_neq in Hb by apply Hne.
+      destruct (str_eqb (volume_path ex_ix 3) (volume_path ex_ix (N.of_nat k))) eqn:E3; [|discriminate Hb].
+      injection Hb as <-. apply str_eqb_eq in E3. apply volume_path_inj in E3. rewrite <- E3.
+      unfold not_member.
+      assert (EV : exists v, read_volume toy_hash ex_stale = Ok v /\
+                     bytes_eqb (v_sethash_stored v) (input_set_hash toy_hash (ex_fs0 ++ [(volume_path ex_ix 3, ex_stale)]) ex_files) = false).
+      { eexists. split; vm_compute; reflexivity. }
+      destruct EV as (v & -> & Hh). left. intros E. rewrite E, bytes_eqb_refl in Hh. discriminate Hh.
+Qed.
+
+(* 3''. what the premise of RT1 on the paths beyond nv still excludes.  A stale volume of the SAME set - Create with
+   three volumes, then again with two, the files unchanged - is a genuine volume of the set and is loaded: Verify is
+   clean but counts three volumes, not two.  A DIRECTORY at such a path is a read error that is not "does not
+   exist": Verify fails. *)
+Example par1_stale_same_set_volume_loaded :
+  let fs1 := io_fs (snd (par1_create toy_hash ex_ix ex_files 3%Z (io_init ex_fs0 []))) in
+  let fs' := io_fs (snd (par1_create toy_hash ex_ix ex_files 2%Z (io_init fs1 []))) in
+  fst (par1_create toy_hash ex_ix ex_files 2%Z (io_init fs1 [])) = Ok tt /\
+  fst (par1_verify toy_hash ex_ix true (io_init fs' [])) =
+    Ok ({| fc_usable := 2; fc_unusable := 0; fc_pusable := 3; fc_punusable := 0 |}, true).
+Proof. split; vm_compute; reflexivity. Qed.
+
+Example par1_directory_at_volume_path_refuted :
+  let fs0 := ex_fs0 ++ [(volume_path ex_ix 3 ++ [47; 122], [9])] in
+  let fs' := io_fs (snd (par1_create toy_hash ex_ix ex_files 2%Z (io_init fs0 []))) in
+  fst (par1_create toy_hash ex_ix ex_files 2%Z (io_init fs0 [])) = Ok tt /\
+  is_dir fs' (volume_path ex_ix 3) = true /\
+  fst (par1_verify toy_hash ex_ix true (io_init fs' [])) = Err EIO.
+Proof. repeat split; vm_compute; reflexivity. Qed.
 
 (* 3'. a stale "a.p03" that does not parse as a volume (the former content of this example) is an unusable
    volume like a missing one: it is skipped, and Verify is clean with the two volumes of the set *)
